@@ -1,4 +1,5 @@
 import Verif.Base.Pack
+import Verif.Spec.TableChecks
 import Verif.Proofs.C17Entities
 import Verif.Proofs.C17Tables
 import Verif.Spec.HtmlRefs
@@ -32,7 +33,8 @@ Two rows of the pinned tree are *not* justified by the standard; for those the f
 table so that a repaired tree does not break the build) and proved with the row excluded (`…_partial`).
 -/
 namespace Verif.Props.C17
-open Verif Verif.Gen Verif.Spec.HtmlRefs Verif.Spec.HtmlTraits Verif.Spec.CssUnits Verif.Proofs.C17
+open Verif Verif.Gen Verif.Spec.HtmlRefs Verif.Spec.HtmlTraits Verif.Spec.CssUnits Verif.Spec.TableChecks
+open Verif.Proofs.C17
 open Verif.Gen.TagTraits (TagTrait) 
 open Verif.Gen.AttrTraits (AttrTrait)
 
@@ -68,11 +70,6 @@ example : decodeCps .text (unpack (pk! "&notit; &amp; &#x80;")) = [172, 105, 116
 example : decodeCps .attr (unpack (pk! "&notit; &not= &not")) = unpack (pk! "&notit; &not= ") ++ [172] := by
   decide +kernel
 
-def textRevRowOk (row : Nat × Nat) : Bool :=
-  match unpack row.1 with
-  | [c] => decodeCps .text (unpack row.2) == [c] && !(unpack row.2).contains 60 && c != cAmp
-  | _ => false
-
 /-- **every row `(c, esc)` of `html.TextRevEntitiesMap`**: `esc` decodes to exactly the character `c` in text,
     contains no `<`, and `c` is not `&` (the escape is itself a reference) -/
 theorem textrev_html_ok : ∀ row ∈ TextRevHtml.table, ∃ c, unpack row.1 = [c] ∧
@@ -101,10 +98,6 @@ theorem textrev_html_covers_lt : ∀ row ∈ EntitiesHtml.table, row.2 = pk! "<"
 
 /-! ## XML predefined entities -/
 
-def xmlEntityRowOk (row : Nat × Nat) : Bool :=
-  decodeXmlCps (unpack row.2) == decodeXmlCps (refOf row.1) && (decodeXmlCps (refOf row.1)).isSome &&
-  decide ((unpack row.2).length ≤ (refOf row.1).length)
-
 /-- **every row of `xml.EntitiesMap`**: `&name;` is a well-formed reference without a DTD and the replacement
     stands for the same characters; not longer -/
 theorem entities_xml_ok : ∀ row ∈ EntitiesXml.table,
@@ -115,10 +108,6 @@ theorem entities_xml_ok : ∀ row ∈ EntitiesXml.table,
   have h := all_of h row hm
   simp only [xmlEntityRowOk, Bool.and_eq_true, beq_iff_eq, decide_eq_true_eq] at h
   exact ⟨h.1.1, h.1.2, h.2⟩
-
-def xmlTextRevRowOk (row : Nat × Nat) : Bool :=
-  decodeXmlCps (unpack row.2) == some (unpack row.1) && (unpack row.1).length == 1 &&
-  !(unpack row.2).contains 60
 
 /-- **every row `(c, esc)` of `xml.TextRevEntitiesMap`**: `esc` is a well-formed reference to exactly `c` -/
 theorem textrev_xml_ok : ∀ row ∈ TextRevXml.table,
@@ -134,10 +123,6 @@ example : 0 < EntitiesXml.table.length ∧ 0 < TextRevXml.table.length ∧ 0 < T
 
 /-! ## CSS colours -/
 
-def colorHexRowOk (row : Nat × Nat) : Bool :=
-  hexColorCps (unpack row.1) == namedColorCps (unpack row.2) && (namedColorCps (unpack row.2)).isSome &&
-  decide ((unpack row.2).length ≤ (unpack row.1).length)
-
 /-- **every row `(hex, keyword)` of `css.ShortenColorHex`**: `keyword` is a CSS named colour, it denotes the same
     sRGB triple as `hex`, and it is not longer -/
 theorem colorhex_ok : ∀ row ∈ ShortenColorHex.table,
@@ -148,10 +133,6 @@ theorem colorhex_ok : ∀ row ∈ ShortenColorHex.table,
   have h := all_of h row hm
   simp only [colorHexRowOk, Bool.and_eq_true, beq_iff_eq, decide_eq_true_eq] at h
   exact ⟨h.1.1, h.1.2, h.2⟩
-
-def colorNameRowOk (row : Nat × Nat) : Bool :=
-  namedColorCps (unpack row.1) == hexColorCps (unpack row.2) && (namedColorCps (unpack row.1)).isSome &&
-  decide ((unpack row.2).length ≤ (unpack row.1).length)
 
 /-- **every row `(keyword, hex)` of `css.ShortenColorName`**: `keyword` is a CSS named colour, `hex` denotes the
     same sRGB triple, and it is not longer -/
@@ -173,10 +154,10 @@ example : colorCps (unpack (pk! "#F00")) = colorCps (unpack (pk! "Red")) ∧
 /-- **every attribute of `html.attrMap` with the `booleanAttr` bit** is a boolean attribute of the HTML standard -/
 theorem bool_attrs_ok : ∀ row ∈ AttrTraits.table, row.2.contains AttrTrait.booleanAttr = true →
     isBooleanAttr row.1 = true := by
-  have h : AttrTraits.table.all
-      (fun row => !row.2.contains AttrTrait.booleanAttr || isBooleanAttr row.1) = true := by decide +kernel
+  have h : AttrTraits.table.all boolAttrRowOk = true := by decide +kernel
   intro row hm ht
   have h := all_of h row hm
+  unfold boolAttrRowOk at h
   simp only [ht, Bool.not_true, Bool.false_or] at h
   exact h
 
@@ -188,7 +169,7 @@ def url_attrs_full : Prop :=
 theorem url_attrs_partial : ∀ row ∈ AttrTraits.table, row.2.contains AttrTrait.urlAttr = true →
     row.1 ≠ pk! "xmlns" → isUrlAttr row.1 = true := by
   have h : AttrTraits.table.all
-      (fun row => !row.2.contains AttrTrait.urlAttr || Nat.beq row.1 (pk! "xmlns") || isUrlAttr row.1) = true := by
+      (fun row => Nat.beq row.1 (pk! "xmlns") || urlAttrRowOk row) = true := by
     decide +kernel
   intro row hm ht hne
   have h := all_of h row hm
@@ -196,7 +177,7 @@ theorem url_attrs_partial : ∀ row ∈ AttrTraits.table, row.2.contains AttrTra
     cases hbq : Nat.beq row.1 (pk! "xmlns") with
     | false => rfl
     | true => exact absurd (Nat.eq_of_beq_eq_true hbq) hne
-  simp only [ht, hb, Bool.not_true, Bool.false_or] at h
+  simp only [urlAttrRowOk, ht, hb, Bool.not_true, Bool.false_or] at h
   exact h
 
 /-- `xmlns` is not a URL-valued attribute of the HTML standard (its value is a namespace name, compared as a
@@ -214,10 +195,10 @@ theorem url_attrs_counterexample :
     parser switches to RAWTEXT/PLAINTEXT for, or a foreign-content root (`Spec/HtmlTraits.isRawJustified`) -/
 theorem raw_tags_ok : ∀ row ∈ TagTraits.table, row.2.contains TagTrait.rawTag = true →
     isRawJustified row.1 = true := by
-  have h : TagTraits.table.all
-      (fun row => !row.2.contains TagTrait.rawTag || isRawJustified row.1) = true := by decide +kernel
+  have h : TagTraits.table.all rawTagRowOk = true := by decide +kernel
   intro row hm ht
   have h := all_of h row hm
+  unfold rawTagRowOk at h
   simp only [ht, Bool.not_true, Bool.false_or] at h
   exact h
 
@@ -229,8 +210,7 @@ def block_tags_full : Prop :=
 theorem block_tags_partial : ∀ row ∈ TagTraits.table, row.2.contains TagTrait.blockTag = true →
     row.1 ≠ pk! "marquee" → isWsInsignificant row.1 = true := by
   have h : TagTraits.table.all
-      (fun row => !row.2.contains TagTrait.blockTag || Nat.beq row.1 (pk! "marquee") || isWsInsignificant row.1)
-        = true := by
+      (fun row => Nat.beq row.1 (pk! "marquee") || blockTagRowOk row) = true := by
     decide +kernel
   intro row hm ht hne
   have h := all_of h row hm
@@ -238,7 +218,7 @@ theorem block_tags_partial : ∀ row ∈ TagTraits.table, row.2.contains TagTrai
     cases hbq : Nat.beq row.1 (pk! "marquee") with
     | false => rfl
     | true => exact absurd (Nat.eq_of_beq_eq_true hbq) hne
-  simp only [ht, hb, Bool.not_true, Bool.false_or] at h
+  simp only [blockTagRowOk, ht, hb, Bool.not_true, Bool.false_or] at h
   exact h
 
 /-- `marquee` is `display: inline-block` (HTML Standard §15 Rendering, "The marquee element"): white space next to
